@@ -117,6 +117,21 @@ def _execute(ctx):
                 return {}
         fee_s = (fees.NoFee() if fee["kind"] == "none" else ReceivedAssetFee() if fee["kind"] == "received"
                  else fees.Percentage(pct, minfee))
+        flaky = dict(raised=False, n=0)
+        if scn.get("flaky_fee"):
+            inner_fee_s = fee_s
+
+            class FlakyFee(fees.FeeStrategy):
+                # a user-supplied strategy with a bug: it raises once, in the middle of the exchange's bar processing
+                def calculate_fees(self, order, balance_updates):
+                    if M["in_api"] == 0:
+                        flaky["n"] += 1
+                        if flaky["n"] == scn["flaky_fee"]:
+                            flaky["raised"] = True
+                            ctx.faults["user_fee_strategy_raises_during_bar"] += 1
+                            raise RuntimeError("fee plugin boom")
+                    return inner_fee_s.calculate_fees(order, balance_updates)
+            fee_s = FlakyFee()
         if liq["kind"] == "inf":
             liq_f = liquidity.InfiniteLiquidity
         else:
@@ -183,13 +198,22 @@ def _execute(ctx):
         # ------------------------------------------------------------ bars
         bars = {}
         bar_list = []
+        slow = scn.get("slow") or {}
+        last_k = 0
         for pi, rows in enumerate(scn["bars"]):
             evs = []
+            span = 1
+            if slow.get("pair") == pi and any((r["k"] + 1) % slow["span"] == 0 for r in rows):
+                span = slow["span"]
+                ctx.probes["pair_with_longer_bars"] += 1
             for bi, r in enumerate(rows):
+                if (r["k"] + 1) % span:
+                    continue            # the slow pair only has bars that end on multiples of its span
+                last_k = max(last_k, r["k"] + 1)
                 o, h, l, c = [max(q(D(x) / 100, qpp(pi)), uqp(pi)) for x in (r["o"], r["h"], r["l"], r["c"])]
                 h = max(o, h, l, c)
                 l = min(o, h, l, c)
-                b = bar.Bar(tmin(r["k"]), pairs[pi], o, h, l, c, D(r["v"]))
+                b = bar.Bar(tmin(r["k"] + 1 - span), pairs[pi], o, h, l, c, D(r["v"]))
                 ev = bar.BarEvent(tmin(r["k"] + 1), b)
                 ev._pi = pi
                 ev._bi = bi
@@ -197,7 +221,20 @@ def _execute(ctx):
                 bars[(pi, ev.when)] = b
             bar_list.append(evs)
 
-        last_k = max(r["k"] for rows in scn["bars"] for r in rows) + 1
+        coarse_evs = []
+        if scn.get("coarse"):
+            fine = bar_list[0]
+            for j in range(0, len(fine) - 1, 2):
+                b1, b2 = fine[j].bar, fine[j + 1].bar
+                cb = bar.Bar(b1.datetime, pairs[0], b1.open, max(b1.high, b2.high), min(b1.low, b2.low), b2.close,
+                             b1.volume + b2.volume)
+                ev = bar.BarEvent(fine[j + 1].when, cb)
+                ev._pi = 0
+                ev._bi = -1
+                coarse_evs.append(ev)
+            if coarse_evs:
+                ctx.probes["second_bar_source_for_a_pair"] += 1
+
         # ------------------------------------------------------------ model
         M = dict(orders={}, seq=[], loans={}, last_close={}, oe=collections.defaultdict(list), nobs=0,
                  barfill=collections.Counter(), in_handler=0, dirty=True, offgrid=bool(scn.get("offgrid_init")), unknown_ids=0, prev_open_loans=None,
@@ -456,7 +493,8 @@ def _execute(ctx):
                 when = bar_ev.when
                 for (o, oi, fb, fq, ff) in fills_this_obs:
                     check_fill(o, oi, fb, fq, ff, pi_bar, br, when)
-                check_bar_progress(pi_bar, br, when, fills_this_obs, bal)
+                if not M.get("bar_aborted"):
+                    check_bar_progress(pi_bar, br, when, fills_this_obs, bal)
             # ---- C06 holds
             for s in set(exph) | set(bal):
                 h = bal[s].hold if s in bal else D(0)
@@ -667,7 +705,7 @@ def _execute(ctx):
                 ctx.probes["nonmarket_fill"] += 1
             if oi.amount_filled < oi.amount:
                 ctx.probes["partial_fill"] += 1
-            key = (o["pi"], when)
+            key = (o["pi"], when, br.datetime)
             M["barfill"][key] += fb
             if liq["kind"] == "vs":
                 cap = br.volume * D(liq["limit"]) / 100
@@ -1375,6 +1413,12 @@ def _execute(ctx):
             # runs right after the exchange processed exactly this bar
             pi = ev._pi
             M["dirty"] = True
+            # the exchange's processing of this bar was cut short by the faulty plugin: what it had not reached yet (the
+            # other orders of the pair, forwarding the bar) did not happen; only the progress clauses are waived for it
+            M["bar_aborted"] = flaky["raised"]
+            flaky["raised"] = False
+            if M["bar_aborted"]:
+                ctx.probes["bar_processing_aborted_by_plugin"] += 1
             before_bar(pi)
             M["pair_bars_seen"][pi].append((ev.when, ev.bar))
             # auto-repay orders that traded in this bar may have closed loans
@@ -1394,7 +1438,7 @@ def _execute(ctx):
 
         async def on_bar(ev):
             ops = scn["scripts"].get(f"bar:{ev._pi}:{ev._bi}")
-            if scn["sig_every"] and ev._pi == 0 and ev._bi % scn["sig_every"] == 0:
+            if scn["sig_every"] and ev._pi == 0 and ev._bi >= 0 and ev._bi % scn["sig_every"] == 0:
                 sig_src.push(ts.TradingSignal(ev.when, bs.Position.LONG, ev.bar.pair))
             if ops:
                 await guarded(run_ops(ops, ev._pi, True, ev.when))
@@ -1426,6 +1470,8 @@ def _execute(ctx):
             ctx.probes["merged_bar_source"] += 1
         else:
             sources = [event.FifoQueueEventSource(events=evs) for evs in bar_list]
+        if coarse_evs:
+            sources.append(event.FifoQueueEventSource(events=coarse_evs))
         if scn["sub_first"]:
             for p in pairs:
                 e.subscribe_to_bar_events(p, on_bar)
@@ -1693,6 +1739,12 @@ def simplifications(scn):
                 yield mod(lambda c, k=k, i=i: c["scripts"][k].pop(i))
     for j in range(len(scn["jobs"])):
         yield mod(lambda c, j=j: c["jobs"].pop(j))
+    if scn.get("coarse"):
+        yield mod(lambda c: c.__setitem__("coarse", False))
+    if scn.get("slow"):
+        yield mod(lambda c: c.__setitem__("slow", None))
+    if scn.get("flaky_fee"):
+        yield mod(lambda c: c.__setitem__("flaky_fee", 0))
     if scn["lend"] and scn["lend"].get("refuse_after") is not None:
         yield mod(lambda c: c["lend"].__setitem__("refuse_after", None))
     if scn["lend"]:
